@@ -22,7 +22,7 @@ RunErrs == {"CallStackOverflow", "UnexpectedEndOfInput", "ExitCode", "InvalidIns
             "BadReturn", "Unhashable", "AssertionError", "InvalidUpvalue", "NotClosure"}
 
 Families == {"any", "compile-only", "call-depth", "value-stack", "memory", "budget", "non-function-call", "wrong-type",
-             "int-overflow", "too-many-locals", "missing-native", "deep-nesting", "cyclic-table", "many-globals", "names", "long-strings", "missing-operands"}
+             "int-overflow", "too-many-locals", "missing-native", "deep-nesting", "cyclic-table", "many-globals", "names", "long-strings", "missing-operands", "foreach-at-stack-limit"}
 
 \* what a family admits: [compile |-> set of compile results, run |-> set of run results]
 \* results are "ok" or an error kind
@@ -36,6 +36,7 @@ Admits(fam) ==
     [] fam = "int-overflow" -> [compile |-> {"ok"}, run |-> {"ok"}]
     [] fam = "too-many-locals" -> [compile |-> {"TooManyLocals"}, run |-> {}]
     [] fam = "missing-native" -> [compile |-> {"ok"}, run |-> {"ProcedureNotFound"}]
+    [] fam = "foreach-at-stack-limit" -> [compile |-> {"ok"}, run |-> {"ok", "Stackoverflow", "CallStackOverflow"}]
     [] fam = "compile-only" -> [compile |-> {"ok"} \cup CompileErrs, run |-> {}]
     [] OTHER -> [compile |-> {"ok"} \cup CompileErrs, run |-> {"ok"} \cup RunErrs]
 
